@@ -23,7 +23,8 @@
                         code after the call, given the object as the call left
                         it and the result [r : res] (RVal v = returned v,
                         RExc e = raised e; OOBData d arrives as RExc (OOBData d)):
-                          asend_k m o i kont       Monitor._asend (i = Send v | Throw e)
+                          asend_k m o i kont kc    Monitor._asend (i = Send v | Throw e; kc = the
+                                                   caller after an external GeneratorExit)
                           call_k m o cl kont       cl : call = CAwait v | CThrow e | CClose
                                                    | CStart | CTry v sentinel
                           (BoundMonitor methods = the same calls: bound_call_k)
@@ -40,8 +41,13 @@
    The two native await layers between the caller and the _asend generator
    (`return await self._asend(..)` inside aawait, and the caller's own await)
    are folded into [relay_k]: C02 (relay_transparent, await_native_await) shows
-   they are transparent; the correspondence check of C07 compares this model
-   directly with the real coroutine objects.
+   they are transparent -- with ONE exception, modelled by [bound_fix] and the
+   separate continuation [kc] of relay_k: a GeneratorExit thrown from outside
+   into a frame that AWAITS a call coroutine closes that coroutine and then
+   raises GeneratorExit in the awaiting frame whatever the call coroutine did
+   with it (aclose()'s `except GeneratorExit: pass` only matters for a raw
+   driver of the Monitor.aclose coroutine itself).  The correspondence check of
+   C07 compares this model directly with the real coroutine objects.
 
    monitor.py:76-111   _asend       -> asend_k / relay_k / close_k
    monitor.py:113-125  aawait       -> call_k (CAwait v)
@@ -170,14 +176,17 @@ Definition first_exn (first : bool) (e : exn) : exn :=
   if first then match e with OOBData _ => RuntimeError RtRaisedOOB | _ => e end else e.
 
 (* The loop of _asend.  [c] is what the driven coroutine does in answer to the
-   last coro.send / coro.throw (state = 1 on entry); `finally: state = 0`. *)
-Fixpoint relay_k (m : Z) (first : bool) (c : coro) (kont : cobj -> res -> coro) : coro :=
+   last coro.send / coro.throw (state = 1 on entry); `finally: state = 0`.
+   [kont] = the caller's code after the call; [kc] = the caller's code when the call
+   ends because GeneratorExit was thrown in from outside at a real suspension (they
+   differ: see call_k). *)
+Fixpoint relay_k (m : Z) (first : bool) (c : coro) (kont kc : cobj -> res -> coro) : coro :=
   match c with
   | Ret v => setst m 0 (kont Finished (RVal v))
   | Raise e => setst m 0 (kont Finished (RExc (first_exn first (pep479 KCoro e))))
-  | Eff ev c' => Eff ev (relay_k m first c' kont)
-  | Get x k => Get x (fun v => relay_k m first (k v) kont)
-  | Set_ x v c' => Set_ x v (relay_k m first c' kont)
+  | Eff ev c' => Eff ev (relay_k m first c' kont kc)
+  | Get x k => Get x (fun v => relay_k m first (k v) kont kc)
+  | Set_ x v c' => Set_ x v (relay_k m first c' kont kc)
   | Susp y k =>
       Get (cell m) (fun s =>
         if st s =? -1
@@ -188,18 +197,18 @@ Fixpoint relay_k (m : Z) (first : bool) (c : coro) (kont : cobj -> res -> coro) 
                match i with
                | Throw GeneratorExit =>          (* coro.close(); raise thrown *)
                    close_k (k (Throw GeneratorExit))
-                           (fun o' r => setst m 0 (kont o' (RExc (exn_after_close r))))
-               | _ => relay_k m false (k i) kont (* coro.send / coro.throw *)
+                           (fun o' r => setst m 0 (kc o' (RExc (exn_after_close r))))
+               | _ => relay_k m false (k i) kont kc (* coro.send / coro.throw *)
                end))
   end.
 
 (* the continuation stored at a real suspension of the relay *)
-Definition relay_cont (m : Z) (k : input -> coro) (kont : cobj -> res -> coro) : input -> coro :=
+Definition relay_cont (m : Z) (k : input -> coro) (kont kc : cobj -> res -> coro) : input -> coro :=
   fun i => match i with
            | Throw GeneratorExit =>
                close_k (k (Throw GeneratorExit))
-                       (fun o' r => setst m 0 (kont o' (RExc (exn_after_close r))))
-           | _ => relay_k m false (k i) kont
+                       (fun o' r => setst m 0 (kc o' (RExc (exn_after_close r))))
+           | _ => relay_k m false (k i) kont kc
            end.
 
 (* the first call raised e without running the body *)
@@ -223,11 +232,11 @@ Definition first_call (o : cobj) (i : input) : coro + (cobj * exn) :=
   end.
 
 (* r = await m._asend(coro, coro.send, (v,))  /  (coro, coro.throw, (e,)) *)
-Definition asend_k (m : Z) (o : cobj) (i : input) (kont : cobj -> res -> coro) : coro :=
+Definition asend_k (m : Z) (o : cobj) (i : input) (kont kc : cobj -> res -> coro) : coro :=
   Get (cell m) (fun s =>
     if st s =? 0 then
       setst m 1 (match first_call o i with
-                 | inl c => relay_k m true c kont
+                 | inl c => relay_k m true c kont kc
                  | inr (o', e) => setst m 0 (kont o' (imm_res e))
                  end)
     else kont o (RExc (RuntimeError RtMonitorReentered))).
@@ -268,12 +277,30 @@ Definition post (cl : call) (r : res) : res :=
 Definition skips (cl : call) (o : cobj) : bool :=
   match cl, o with CClose, Finished => true | _, _ => false end.
 
+(* A GeneratorExit thrown from outside into a coroutine that is AWAITING the call
+   coroutine (PEP 380): the await closes the call coroutine and then raises
+   GeneratorExit whatever the call coroutine did with it -- aclose()'s
+   `except GeneratorExit: pass` makes the call coroutine return None, but the awaiting
+   frame still gets GeneratorExit.  (Thrown directly into the call coroutine, as a raw
+   driver does, aclose() does return None.) *)
+Definition bound_fix (bound : bool) (i : input) (r : res) : res :=
+  match i, r with
+  | Throw GeneratorExit, RVal _ => if bound then RExc GeneratorExit else r
+  | _, _ => r
+  end.
+
+(* r = await m.<cl>(o)  inside a caller whose code after the call is [kont o' r] *)
 Definition call_k (m : Z) (o : cobj) (cl : call) (kont : cobj -> res -> coro) : coro :=
   if skips cl o then kont o (RVal VNone)
-  else asend_k m o (call_input cl) (fun o' r => kont o' (post cl r)).
+  else asend_k m o (call_input cl)
+               (fun o' r => kont o' (post cl r))
+               (fun o' r => kont o' (bound_fix true (Throw GeneratorExit) (post cl r))).
 
 (* BoundMonitor(m, coro).aawait / athrow / aclose / start / try_await / __await__:
-   `return await self.monitor.<method>(self.coro, ..)` -- one more transparent await *)
+   `return await self.monitor.<method>(self.coro, ..)` -- one more native await: for a
+   caller that awaits it nothing changes ([bound_call_k]); for a raw driver that throws
+   GeneratorExit into the BoundMonitor coroutine the rule [bound_fix] applies
+   ([bound_resume] below with bound = true). *)
 Definition bound_call_k := call_k.
 
 (* ------------------------------------------------------- direct evaluator *)
@@ -334,6 +361,13 @@ Definition call_run (m : Z) (s : store) (o : cobj) (cl : call) : list event * st
 Definition call_resume (m : Z) (cl : call) (s : store) (k : input -> coro) (i : input)
   : list event * store * mstop :=
   let '(evs, s', st) := resume_run m s k i in (evs, s', post_stop cl st).
+
+(* the same for a call coroutine that is awaited by one more frame when [bound]: a
+   BoundMonitor method driven raw, or any call awaited by a caller (call_k) *)
+Definition bound_resume (bound : bool) (m : Z) (cl : call) (s : store) (k : input -> coro) (i : input)
+  : list event * store * mstop :=
+  let '(evs, s', st) := call_resume m cl s k i in
+  (evs, s', match st with MEnd o r => MEnd o (bound_fix bound i r) | _ => st end).
 
 (* ----------------------------------------------------- script coroutines *)
 (* A coroutine that drives one sub-coroutine [o] through monitors:
